@@ -369,5 +369,11 @@ func (x *executor) finish(rule string, exhaustive bool) {
 		oc[k] = x.outcomes[k]
 	}
 	x.r.Extra["outcome_classes"] = oc
+	other := []string{}
+	for m := range otherErrors {
+		other = append(other, m)
+	}
+	sort.Strings(other)
+	x.r.Extra["unclassified_error_examples"] = other
 	x.r.Finish(rule, exhaustive)
 }
